@@ -391,13 +391,6 @@ contract(
 # MoleculeResolver.resolve — one resolution step (C06): the previous fine graph becomes the coarse graph, its atom names become
 # fragment names, and the five steps are called in an order in which each one's precondition is established by the ones before it.
 contract(
-    target='cgsmiles.graph_utils:annotate_fragments', trusted=True,
-    types={'meta_graph': 'Graph:mol', 'molecule': 'Graph:mol'}, returns='Graph:mol',
-    ensures=["result == meta_graph"], modifies=["meta_graph:attr:graph"], allocates=True,
-    notes='assumed: returns the coarse graph it was given, rewriting only the per-node fragment graphs; checked by the bounded tier (C02, C12)',
-    assumes=["graph_utils.annotate_fragments returns its first argument and writes only the 'graph' attribute of its nodes"],
-)
-contract(
     target='cgsmiles.pysmiles_utils:annotate_ez_isomers_cgsmiles', trusted=True,
     types={'molecule': 'Graph:mol'}, returns=None, modifies=["molecule:attr:ez_isomer_class,attr:ez_isomer"],
     notes='assumed: pysmiles _annotate_ez_isomers; checked by the bounded tier (C15)',
@@ -449,6 +442,11 @@ contract(
         "all(has_attr(result[0], n, 'fragname') and attr(result[0], n, 'fragname') == "
         "(old(attr(self.molecule, n, 'atomname')) if old(has_attr(self.molecule, n, 'atomname')) else old(attr(self.molecule, n, 'fragname'))) "
         "for n in nodes(result[0]))",
+        # the mapping between the two returned graphs: atom n is in the fragment graph of coarse node k <=> k is in n's membership list
+        "all(has_attr(result[0], k, 'graph') and all(has_node(result[1], n) and has_attr(result[1], n, 'fragid') and "
+        "member(k, attr(result[1], n, 'fragid')) for n in nodes(attr(result[0], k, 'graph'))) for k in nodes(result[0]))",
+        "all(all(implies(has_node(result[0], k), has_node(attr(result[0], k, 'graph'), n)) for k in attr(result[1], n, 'fragid')) "
+        "for n in nodes(result[1]) if has_attr(result[1], n, 'fragid'))",
     ],
     raises={'SyntaxError': {'when': None}},
     rebinds=['self.molecule', 'self.meta_graph'], modifies=["self.molecule:attr:fragname,attr:graph"], allocates=True,
